@@ -932,7 +932,8 @@ class Bus(ContainerBase, StoreClientMixin): # not a ContainerOperand
         '''
         if key not in self._series._index:
             return default
-        return self._series.__getitem__(key)
+        # use the Bus selection so that a Frame not yet loaded is read from the store
+        return self.__getitem__(key)
 
     #---------------------------------------------------------------------------
     @doc_inject()
